@@ -1,14 +1,20 @@
 /- Line-protocol driver for C03 (one JSON request per line, one answer line each).
    {"op":"scopes","m":MODEL}                      -> true | false <first failing conjunct>
+                                                     (checkScopes; callsBound: no absent operand for a formal that is read; acyclic: no recursion)
    {"op":"names","calls":[CALL…]}                 -> JSON array of the minted names, call order
       CALL = ["C", ctx, base]          ctx.fresh_name(base)
            | ["B", ctx, base]          ctx.builder.fresh_name(base)
            | ["child", ctx, prefix, new]   new := make_subgraph_context(ctx, prefix=prefix)
                                            (answers with the prefix minted from the parent)
       context 0 is the root context.
+   {"op":"namefix","ev":[EV…]}                    -> JSON array of [value id, final name] in visiting order | fuel
+      EV = ["enter"] | ["exit"] | ["v", id, name]   (NameFixPass contract model `nfRun`, Model/C03Rename.lean)
 -/
 import J2O.Model.ModelTreeJson
 import J2O.Model.C03
+import J2O.Model.C03Rename
+import J2O.Model.C03Calls
+import J2O.Model.C03Acyclic
 open Lean J2O.MT J2O.C03
 
 structure CtxSim where
@@ -52,7 +58,10 @@ def step (j : Json) : Except String String := do
   match op with
   | "scopes" =>
     let m ← jModel (← j.getObjVal? "m")
-    if checkScopes m then pure "true" else pure ("false " ++ explain m)
+    if !checkScopes m then pure ("false " ++ explain m)
+    else if !callsBound m then pure "false call-operand-absent"     -- Props/C03Calls.lean
+    else if !acyclic m then pure "false function-recursion"         -- Props/C03Acyclic.lean
+    else pure "true"
   | "names" =>
     let calls ← (← j.getObjVal? "calls").getArr?
     let mut cs : List CtxSim := [{ id := 0, pref := none, cntC := [], cntB := [] }]
@@ -62,6 +71,20 @@ def step (j : Json) : Except String String := do
       cs := cs'
       out := out.push (Json.str nm)
     pure (Json.arr out).compress
+  | "namefix" =>
+    let evs ← (← j.getObjVal? "ev").getArr?
+    let mut es : Array Ev := #[]
+    for e in evs do
+      let arr ← e.getArr?
+      match ← arr[0]!.getStr? with
+      | "enter" => es := es.push .enter
+      | "exit" => es := es.push .exit
+      | "v" => es := es.push (.val (← arr[1]!.getNat?) (← arr[2]!.getStr?))
+      | _ => throw "bad event"
+    match nfRun nfInit es.toList with
+    | none => pure "fuel"
+    | some st =>
+      pure (Json.arr (st.out.reverse.toArray.map fun (i, nm) => Json.arr #[Json.num i, Json.str nm])).compress
   | _ => throw "unknown op"
 
 def main : IO Unit := do driverLoop (← IO.getStdin) step
